@@ -266,6 +266,29 @@ func runC08(p *core.Program, r *core.Report) {
 				}
 			}
 		})
+		// ... and the true answer is given only on a path that compared the entry's deadline
+		// (OD1 tabulates those comparisons; a true that no such comparison guards is not a
+		// statement about the entry at all)
+		readsDeadline := func(v ssa.Value) bool {
+			for _, o := range valueOrigins(v) {
+				if u, ok := o.(*ssa.UnOp); ok && u.Op == token.MUL {
+					if f, ok := slotOf(u.X, "Item"); ok && f == "expiration" {
+						return true
+					}
+				}
+			}
+			return false
+		}
+		for _, alt := range returnAlternatives(fn, 0) {
+			if bc, isC := path.BoolConst(alt.val); !isC || !bc {
+				continue
+			}
+			okT := guardedBy(fn, alt.blk, func(cd path.Cond, truth bool) bool { return readsDeadline(cd.X) || readsDeadline(cd.Y) })
+			r.Obligation("OD3", okT, map[string]any{"rule": "OD3", "function": "cache.(*Cache).IsExpired", "what": "true only after comparing the entry's deadline", "at": p.InstrPos(alt.ret), "ok": okT})
+			if !okT {
+				r.Violation(core.Diag{Rule: "OD3", Func: "cache.(*Cache).IsExpired", Object: "true answer guarded by the deadline", Pos: p.InstrPos(alt.ret), Reason: "IsExpired answers true on a path that never compared the entry's deadline: live entries (or absent keys) are reported as expired"})
+			}
+		}
 		r.Obligation("OD3", feasibleTrue, map[string]any{"rule": "OD3", "function": "cache.(*Cache).IsExpired", "true_answer_feasible": feasibleTrue})
 		if !feasibleTrue {
 			r.Violation(core.Diag{Rule: "OD3", Func: "cache.(*Cache).IsExpired", Object: "true answer", Pos: p.Pos(fn.Pos()),
@@ -450,7 +473,29 @@ func runC08(p *core.Program, r *core.Report) {
 		}
 		switch {
 		case fromMap:
-			r.Obligation("CM1", true, map[string]any{"rule": "CM1", "function": "cache.(*Cache).Count", "derives_from": "len(items)"})
+			// ... and nothing else: every return hands back len(items) itself
+			okAll := true
+			var at ssa.Instruction
+			for _, b := range fn.Blocks {
+				rt, isRet := b.Instrs[len(b.Instrs)-1].(*ssa.Return)
+				if !isRet || b == fn.Recover {
+					continue
+				}
+				for _, o := range valueOrigins(path.ReturnValues(rt)[0]) {
+					c, isCall := o.(*ssa.Call)
+					bi, isB := (*ssa.Builtin)(nil), false
+					if isCall {
+						bi, isB = c.Call.Value.(*ssa.Builtin)
+					}
+					if !isCall || !isB || bi.Name() != "len" || !loadOfSlot(c.Call.Args[0], "cache", "items") {
+						okAll, at = false, rt
+					}
+				}
+			}
+			r.Obligation("CM1", okAll, map[string]any{"rule": "CM1", "function": "cache.(*Cache).Count", "derives_from": "len(items)"})
+			if !okAll {
+				r.Violation(core.Diag{Rule: "CM1", Func: "cache.(*Cache).Count", Object: "count source", Pos: p.InstrPos(at), Reason: "a return of Count hands back something other than len(items)"})
+			}
 		case counter == "":
 			r.Obligation("CM1", false, nil)
 			r.Undecided(core.Diag{Rule: "CM1", Func: "cache.(*Cache).Count", Object: "count source", Pos: p.Pos(fn.Pos()), Reason: "Count derives neither from len(items) nor from a counter field of the cache"})
@@ -810,6 +855,15 @@ func c08Store(p *core.Program, r *core.Report, fns []*ssa.Function) {
 	put, add, set, update := c.helper(T+"put"), c.helper(T+"add"), c.fn(T+"Set"), c.fn(T+"Update")
 	if put == nil || set == nil || update == nil {
 		return
+	}
+	// Get answers what the expiry-aware lookup found, nothing else
+	if fget, hget := c.fn(T+"Get"), c.helper(T+"get"); fget != nil && hget != nil {
+		okW, at := returnsCallUnmodified(fget, hget)
+		pos := c.fpos(fget)
+		if at != nil {
+			pos = p.InstrPos(at)
+		}
+		c.ob("PV1", p.FuncName(fget), "Get answers what the lookup found", pos, okW, "Get returns something other than the unmodified results of get(key): an answer that depends on other state is not the entry's")
 	}
 	// AG1: every insertion that is not an Update goes through Set's liveness test:
 	// put is called only by Set and add, add only by Update
